@@ -362,6 +362,14 @@ pub fn generate(check: &str, tier: &str, seed: u64) -> Scenario {
                     ops.insert(at, Op::Merge);
                 }
             }
+            // wall-clock jumps (forwards and backwards) between operations: nothing may depend on it
+            if cr.one_in(4) {
+                let m = ops.len();
+                for _ in 0..r.range(1, 3) {
+                    let at = r.usize_below(m + 1);
+                    ops.insert(at.min(ops.len()), Op::ClockJump(*r.pick(&[-86_400, -3_600, -1, 1, 3_600, 86_400 * 365])));
+                }
+            }
             if cfg.merge_always {
                 // an old instance's background merge racing a reopen is C17's subject
                 for o in ops.iter_mut() {
@@ -398,11 +406,44 @@ pub fn generate(check: &str, tier: &str, seed: u64) -> Scenario {
             }
             let mut sim = sim_params_seq(&mut cr);
             sim.latency_pm = 0;
+            let mut threads = vec![ops];
+            if cr.one_in(4) {
+                // concurrent writers on disjoint keys (+ a merging thread) under a seeded schedule
+                let nw = cr.range(2, 3) as usize;
+                let nkeys2 = keys.len();
+                threads.clear();
+                for t in 0..nw {
+                    let own: Vec<usize> = (0..nkeys2).filter(|k| k % nw == t).collect();
+                    let n = r.range(2, 8) as usize;
+                    let mut ops = Vec::new();
+                    for _ in 0..n {
+                        let k = if own.is_empty() { 0 } else { *r.pick(&own) };
+                        if own.is_empty() {
+                            break;
+                        }
+                        if r.below(10) < 7 {
+                            tag += 1;
+                            ops.push(Op::Set(k, Val { tag, len: val_len(&mut r, big) }));
+                        } else {
+                            ops.push(Op::Del(k));
+                        }
+                    }
+                    threads.push(ops);
+                }
+                if cr.one_in(2) {
+                    threads.push((0..r.range(1, 3)).map(|_| Op::Merge).collect());
+                }
+                sim.strat = match cr.below(3) {
+                    0 => Strat::Random(100),
+                    1 => Strat::Random(400),
+                    _ => Strat::Pct(*cr.pick(&[1, 2, 3]), 600),
+                };
+            }
             Scenario {
                 check: check.to_string(),
                 seed,
                 sim,
-                body: Body::Store(StoreScn { cfg, keys, threads: vec![ops], fault: None, fault_reads: false, max_crash_points: if thorough { 0 } else { 80 }, extra: 0 }),
+                body: Body::Store(StoreScn { cfg, keys, threads, fault: None, fault_reads: false, max_crash_points: if thorough { 0 } else { 80 }, extra: 0 }),
             }
         }
         "C20" => {
